@@ -89,7 +89,7 @@ pub fn cmd_worker(args: &Args) -> i32 {
         let bytes = sp.bytes_of(&c);
         let changed = bytes != sp.bases[c.base].bytes || c.faults.iter().any(|f| matches!(f, Fault::Io { .. }));
         let t_case = Instant::now();
-        let (mut v, mut peak) = exec_case(&file, &dir, &bytes, &c, budget_for(bytes.len()));
+        let (mut v, mut peak) = exec_case(&file, &dir, &bytes, &c, budget_for(bytes.len()), None);
         if std::env::var_os("JBSIM_SLOW").is_some() && t_case.elapsed().as_millis() > 100 {
             eprintln!("SLOW case {} {}ms kind={} bytes={}", idx, t_case.elapsed().as_millis(), c.kind(), bytes.len());
         }
@@ -100,7 +100,7 @@ pub fn cmd_worker(args: &Args) -> i32 {
             for k in 1..4u64 {
                 let mut c2 = c.clone();
                 c2.hash_seed = c.hash_seed.wrapping_add(k.wrapping_mul(0x9E37_79B9_7F4A_7C15));
-                let (v2, p2) = exec_case(&file, &dir, &bytes, &c2, budget_for(bytes.len()));
+                let (v2, p2) = exec_case(&file, &dir, &bytes, &c2, budget_for(bytes.len()), None);
                 peak = peak.max(p2);
                 if matches!(v2, Verdict::Panic(_)) {
                     v = v2;
@@ -141,7 +141,7 @@ pub fn cmd_exec_file(args: &Args) -> i32 {
         Ok(e) => e,
         Err(_) => return 2,
     };
-    let Some((c, bytes)) = case_from_body(&rf.body, &mut env) else {
+    let Some((c, bytes, good)) = case_from_body(&rf.body, &mut env) else {
         println!("HARNESS-ERROR bad W2 replay body");
         return 2;
     };
@@ -152,7 +152,7 @@ pub fn cmd_exec_file(args: &Args) -> i32 {
     // the marker goes to stdout's fd so the parent sees "ALLOC n"
     let _ = marker;
     crate::alloc::set_marker_fd(1);
-    let (v, peak) = exec_case(&file, &dir, &bytes, &c, budget_for(bytes.len()));
+    let (v, peak) = exec_case(&file, &dir, &bytes, &c, budget_for(bytes.len()), Some(&good));
     match v {
         Verdict::Ok => {
             println!("RESULT ok peak={}", peak);
@@ -169,14 +169,16 @@ pub fn cmd_exec_file(args: &Args) -> i32 {
     }
 }
 
-fn case_from_body(body: &[String], env: &mut Env) -> Option<(Case, Vec<u8>)> {
+fn case_from_body(body: &[String], env: &mut Env) -> Option<(Case, Vec<u8>, Vec<u8>)> {
     let mut base = None;
     let mut other = None;
     let mut hash_seed = 0u64;
     let mut faults = Vec::new();
+    let mut after_good = false;
     for l in body {
         let (k, v) = l.split_once(' ')?;
         match k {
+            "sequence" => after_good = v == "valid-file-loaded-first-then-replaced-in-place",
             "base" => base = VoiceRef::from_text(v),
             "other" => other = VoiceRef::from_text(v),
             "hash_seed" => hash_seed = v.parse().ok()?,
@@ -189,15 +191,18 @@ fn case_from_body(body: &[String], env: &mut Env) -> Option<(Case, Vec<u8>)> {
         Some(o) => env.voice_bytes(&o).ok()?,
         None => vec![],
     };
-    let mut cur = b;
+    let mut cur = b.clone();
     for f in &faults {
         cur = apply(&cur, &o, f);
     }
-    Some((Case { base: 0, faults, hash_seed }, cur))
+    Some((Case { base: 0, faults, hash_seed, after_good }, cur, b))
 }
 
 fn body_of(sp: &CaseSpace, c: &Case) -> Vec<String> {
     let mut v = vec![format!("base {}", sp.bases[c.base].vref.to_text()), format!("other {}", sp.bases[(c.base + 1) % sp.bases.len()].vref.to_text()), format!("hash_seed {}", c.hash_seed)];
+    if c.after_good {
+        v.push("sequence valid-file-loaded-first-then-replaced-in-place".to_string());
+    }
     for f in &c.faults {
         v.push(format!("fault {}", f.to_text()));
     }
@@ -565,6 +570,7 @@ pub fn cmd_w2(args: &Args) -> i32 {
     }
     candidates.sort();
     let mut reported_sigs: BTreeSet<String> = BTreeSet::new();
+    let mut sequence_confirmed = 0u64;
     for (idx, expect) in candidates {
         let mut c = sp.case(idx);
         if let Some(h) = seed_override.get(&idx) {
@@ -586,7 +592,23 @@ pub fn cmd_w2(args: &Args) -> i32 {
             }
         };
         let is_hang = abnormal.get(&idx).map(|a| a.0 == "hang").unwrap_or(false);
-        let (sig, detail) = run_file_in_child(&path, if is_hang { HANG_CONFIRM_S } else { 30 });
+        let (mut sig, mut detail) = run_file_in_child(&path, if is_hang { HANG_CONFIRM_S } else { 30 });
+        if sig.is_empty() || sig == "harness" {
+            // Not reproducible from a pristine process. A worker loads thousands of files through one
+            // path, so the failure may need the *sequence*: a valid file was loaded from this path, then
+            // it was replaced in place by the faulted one (a re-download over a voice already in use).
+            cur.after_good = true;
+            if let Ok(p2) = write(&cur, &name, &expect, "") {
+                let (s2, d2) = run_file_in_child(&p2, if is_hang { HANG_CONFIRM_S } else { 30 });
+                if !(s2.is_empty() || s2 == "harness") {
+                    sig = s2;
+                    detail = format!("{} [fault sequence: the valid file was loaded from the same path first, then replaced in place]", d2);
+                    sequence_confirmed += 1;
+                } else {
+                    cur.after_good = false;
+                }
+            }
+        }
         if sig.is_empty() || sig == "harness" {
             if !expect.is_empty() || abnormal.contains_key(&idx) {
                 harness_errors.push(format!("case {} ({}) did not reproduce alone: {} {}", idx, c.kind(), sig, detail));
@@ -703,6 +725,7 @@ pub fn cmd_w2(args: &Args) -> i32 {
         .set("workers", J::u(nworkers))
         .set("determinism_pairs_checked", J::u(det_pairs))
         .set("determinism_mismatches", J::u(det_mismatch))
+        .set("violations_confirmed_only_as_a_load_sequence_valid_file_then_faulted_file_at_the_same_path", J::u(sequence_confirmed))
         .set("real_components", J::s("jbonsai loader (Engine::load -> load_htsvoice_file -> parser), nom, serde, std::fs on tmpfs"))
         .set("simulated_components", J::s("disk contents and their faults, failing open/read, header hash-map seed, allocator budget"))
         .set("stubbed_components", J::s("none"))
